@@ -348,6 +348,37 @@ func (e *env) deepReorg(caseID string, d int) {
 		}
 		r.Case("", false)
 	}
+	// one request naming every block of both branches (1000+ items) in shuffled order: one verdict per item, in the order
+	// submitted
+	perm := rng.Perm(len(nodes))
+	var req []item
+	var want []string
+	for _, k := range perm {
+		n := nodes[k]
+		req = append(req, item{Root: n.Merkle.String(), Height: n.Height, class: "deep-reorg-" + n.State + "-own-height"})
+		v, _ := m.MerkleVerdict(n.Merkle.String(), int64(n.Height), 6)
+		want = append(want, v)
+	}
+	b, _ := json.Marshal(req)
+	w := stx.POST("/api/v1/chain/merkleroot/verify", b)
+	var rs resp
+	if w.Code != 200 || mb.DecodeOne(w.Body.Bytes(), &rs) != nil || len(rs.Confirmations) != len(req) {
+		r.Violate("long-request|http", fmt.Sprintf("POST verify with %d items -> %d with %d verdicts", len(req), w.Code, len(rs.Confirmations)), caseID, map[string]any{"items": len(req)})
+		return
+	}
+	for i := range req {
+		c := rs.Confirmations[i]
+		if c.MerkleRoot != req[i].Root || c.BlockHeight != int64(req[i].Height) {
+			r.Violate("order|long-request", fmt.Sprintf("request of %d items: verdict %d is for (%s,%d), submitted item was (%s,%d)", len(req), i, c.MerkleRoot, c.BlockHeight, req[i].Root, req[i].Height), caseID, map[string]any{"items": len(req)})
+			return
+		}
+		if c.Confirmation != want[i] {
+			r.Violate(sigOf(req[i], want[i], c.Confirmation), fmt.Sprintf("request of %d items, item %d at height %d: verdict %s, expected %s", len(req), i, req[i].Height, c.Confirmation, want[i]), caseID, map[string]any{"items": len(req)})
+			return
+		}
+	}
+	r.Count("requests_of_more_than_500_items", 1)
+	r.Case("", false)
 	r.Count("deep_reorganisations", 1)
 	r.Count("states_after_reorg", 1)
 }
